@@ -14,7 +14,7 @@ use stun_types::message::{Message, MessageHeader};
 const P: &str = "C17";
 
 pub fn run(ctx: &Ctx) -> Report {
-    let (n_full, n_small) = ctx.tier.pick((4, 5), (5, 6));
+    let (n_full, n_small) = ctx.tier.pick((5, 6), (5, 7));
     let sk = engine_in::skeletons(n_full, n_small);
     let hv = crate::props::c02::header_variants(ctx);
     let acc1 = sk
@@ -54,6 +54,47 @@ pub fn run(ctx: &Ctx) -> Report {
     let n_big = big.len() as u64;
     let mut acc2 = sweep(cases.into_par_iter(), judge);
     acc2.nontrivial += n_big;
+    // messages around the 16-bit length boundary: cut points 0..=300, the last 300, every power
+    // of two +-1 and every 251st in between (the parser answers a short prefix from the header alone)
+    let mut huge: Vec<Vec<u8>> = Vec::new();
+    for (len, fp) in [(4093usize, true), (16381, false), (65_500, true), (65_520, true), (65_528, false)] {
+        let mut b = real::builder(2, 0x0FFF, (1u128 << 96) - 7);
+        let v = vec![0x5Au8; len];
+        b.add_raw_attribute(stun_types::attribute::RawAttribute::new(0x8030.into(), &v)).unwrap();
+        if fp {
+            b.add_fingerprint().unwrap();
+        }
+        let bytes = b.build();
+        if bytes.len() - 20 <= 0xFFFF && wire::decode(&bytes).is_ok() {
+            huge.push(bytes);
+        }
+    }
+    let acc_huge = huge
+        .par_iter()
+        .fold(Acc::default, |mut acc, b| {
+            acc.nontrivial += 1;
+            let n = b.len();
+            let mut cuts: Vec<usize> = (0..=300.min(n - 1)).collect();
+            cuts.extend(n.saturating_sub(300)..n);
+            let mut p = 1usize;
+            while p < n {
+                for c in [p - 1, p, p + 1] {
+                    if c < n {
+                        cuts.push(c);
+                    }
+                }
+                p *= 2;
+            }
+            cuts.extend((301..n).step_by(251));
+            cuts.sort();
+            cuts.dedup();
+            for k in cuts {
+                judge_guarded(judge, &Case::new("prefix", b.clone()).args(&[k as i64]), &mut acc);
+            }
+            acc
+        })
+        .reduce(Acc::default, |a, b| a.merge(b));
+    acc2 = acc2.merge(acc_huge);
     // header decoder over the header space
     let lens: [u16; 7] = [0, 1, 3, 4, 8, 0xFFFC, 0xFFFF];
     let acc3 = (0..=0xFFFFu32)
@@ -73,14 +114,41 @@ pub fn run(ctx: &Ctx) -> Report {
                     judge_guarded(judge, &case, &mut acc);
                 }
             }
+            // every 16-bit length field under three type fields
+            for ty in [0x0001u16, 0x0111, 0x3FFF] {
+                let mut h = wire::encode_header(0, 0, 0xA1B2_C3D4_E5F6_0718_293A_4B5C, 0);
+                h[0] = (ty >> 8) as u8;
+                h[1] = ty as u8;
+                h[2] = (t >> 8) as u8;
+                h[3] = t as u8;
+                judge_guarded(judge, &Case::new("header", h), &mut acc);
+            }
             acc
         })
         .reduce(Acc::default, |a, b| a.merge(b));
+    // every single-bit flip of the cookie; transaction ids: walking one / walking zero over the 96
+    // bits, every byte lane with all 256 values
+    let mut hcases: Vec<Case> = Vec::new();
+    for bit in 0..32 {
+        let mut h = wire::encode_header(1, 2, 3, 0);
+        h[4 + bit / 8] ^= 0x80 >> (bit % 8);
+        hcases.push(Case::new("header", h));
+    }
+    for bit in 0..96 {
+        hcases.push(Case::new("header", wire::encode_header(0, 1, 1u128 << bit, 8)));
+        hcases.push(Case::new("header", wire::encode_header(3, 1, ((1u128 << 96) - 1) ^ (1u128 << bit), 8)));
+    }
+    for lane in 0..12 {
+        for v in 0..=255u128 {
+            hcases.push(Case::new("header", wire::encode_header(2, 0x123, v << (8 * lane), 0)));
+        }
+    }
+    let acc3 = acc3.merge(sweep(hcases.into_par_iter(), judge));
     let acc = acc1.merge(acc2).merge(acc3);
     Report {
         acc,
         exhaustive: true,
-        rule: "every well-formed message of the skeleton space (x3 header variants) and 10 builder-made messages with attribute lengths up to 763 x every cut point 0..len; header decoder on all 65536 type fields x 7 length fields x cookie ok/off; distinct_nontrivial counts the well-formed messages".into(),
+        rule: "every well-formed message of the skeleton space (x3 header variants) and 10 builder-made messages with attribute lengths up to 763 x every cut point 0..len; 5 messages of 4 KiB .. 65 552 bytes x cut points {0..=300, last 300, powers of two +-1, every 251st}; header decoder on all 65536 type fields x 7 length fields x cookie ok/off, all 65536 length fields x 3 types, every cookie bit, walking-one / walking-zero / byte-lane transaction ids; distinct_nontrivial counts the well-formed messages".into(),
         bounds: json!({"skeletons": sk.len(), "cut_points": "all", "header_space": 65536 * 14}),
         assumptions: vec![],
         ..Default::default()
